@@ -165,7 +165,9 @@ ASSUMPTIONS = [
     "AES block, GCM, ChaCha20-Poly1305, the ChaCha20 block and HMAC/SHA are the JDK's providers (independent of Go's "
     "standard library and x/crypto); everything above them (CTR, encrypt-then-MAC, POLYVAL/GF(2^128), RFC 8452 key "
     "derivation/tag/counter mode, HChaCha20, CMAC, XAES key derivation, envelope framing, DEK protobuf) is TLA+",
-    "the remote KMS of the envelope AEAD is an in-process Tink AES-GCM keyset AEAD",
+    "the remote KMS of the envelope AEAD is an in-process Tink AES-GCM keyset AEAD, optionally wrapped by the harness's "
+    "size-controlled remote (be16 length || inner || zero padding to an exact size; modelled in Envelope.tla); Encrypt may "
+    "refuse only when the remote returns more than 4096 bytes, everything it emits must decrypt",
     "quantifiers over plaintext/associated data are covered by every small length plus boundary classes, not by proof",
 ]
 
@@ -173,7 +175,9 @@ ASSUMPTIONS = [
 def run(ctx):
     ctx.cov["rule"] = (
         "events = real Encrypt/Decrypt calls over key type (AES-GCM, AES-CTR-HMAC, AES-GCM-SIV, ChaCha20-/XChaCha20-Poly1305, "
-        "XAES-256-GCM, KMS envelope over 10 DEK templates, multi-key keysets) x key size x IV/tag size x hash x variant "
+        "XAES-256-GCM, KMS envelope over 10 DEK templates (KMSEnvelopeAEAD and ...WithContext; plain and size-controlled remote "
+        "AEADs returning encrypted DEKs of 200..257 and 4094/4095/4096/4097 bytes), multi-key keysets) x key size (HMAC keys on "
+        "both sides of the 64- and 128-byte hash blocks: 16..200) x IV/tag size x hash x variant "
         "(TINK/CRUNCHY/LEGACY/NO_PREFIX) x key id (0..0xffffffff) x route (aead.New keyset factory, keyset through its proto "
         "form, aesgcm.NewAEAD, aead/subtle, NewKMSEnvelopeAEAD2, KmsEnvelopeAeadKey keyset) x plaintext length (boundary "
         "classes quick; every length 0..300 + block multiples thorough) x content class x associated data (nil/empty/"
